@@ -300,7 +300,22 @@ def scan_rules(rep, sfacts):
     g = M.cfg(scan)
     S1 = rep.rule('C14.S1', 'exactly one end-of-file token is appended, after the scanning loop', floor=1)
     loops = [s for s in walk_stmts(scan['body']) if s['k'] in ('while', 'for', 'do')]
-    eofs = [ev for ev in g.calls() if is_call(ev.e, '::push_back') and 'T_EOF' in show(ev.e) and show(ev.e['obj']) == 'res']
+    def eof_text(ev):
+        # the pushed value, looked through single-definition locals and through an in-repo helper that builds it
+        a = ev.e['args'][0] if ev.e.get('args') else None
+        txt = show(ev.e)
+        o = M.origin(scan, a) if a is not None else None
+        o = strip_conv(strip_copies(strip_casts(o))) if o is not None else None
+        if o is not None:
+            txt += ' ' + show(o)
+            if o.get('k') == 'call' and o.get('callee_in_repo'):
+                h = sfacts.fn(o.get('callee'), optional=True)
+                if h is not None and h.get('body') is not None:
+                    rets = [x for x in walk_stmts(h['body']) if x['k'] == 'return' and x.get('e') is not None]
+                    if rets and all('T_EOF' in show(x['e']) for x in rets):
+                        txt += ' T_EOF(helper %s)' % h['q']
+        return txt
+    eofs = [ev for ev in g.calls() if is_call(ev.e, '::push_back') and show(ev.e['obj']) == 'res' and 'T_EOF' in eof_text(ev)]
     inside = [ev for ev in eofs if loops and any(x is ev.e for x in walk_all_exprs(loops[0]['body']))]
     S1.check(len(eofs) == 1 and not inside and g.on_all_paths(eofs[0]), 'scan: final EOF', 'one push of a T_EOF token on every path, outside the loop',
              '%d EOF pushes (%d inside the loop)' % (len(eofs), len(inside)), 'Compiler/src/scan.cpp:%d' % scan['loc'][1])
@@ -525,6 +540,16 @@ def c15(rep, tier):
             # the name is the token text without its quotes
             defs = M.defs(ev[0].fn).get(fr['d'], [])
             txt = ' '.join(show(d[1]) for d in defs if d[1] is not None)
+            # a helper that strips the quotes: its single return expression takes part
+            for d in defs:
+                o = strip_conv(strip_copies(strip_casts(d[1]))) if d[1] is not None else None
+                if o is not None and o.get('k') == 'call' and o.get('callee_in_repo') and o.get('obj') is None:
+                    h = sfacts.fn(o.get('callee'), optional=True)
+                    if h is not None and h.get('body') is not None:
+                        rets = [x for x in walk_stmts(h['body']) if x['k'] == 'return' and x.get('e') is not None]
+                        others = [x for x in walk_stmts(h['body']) if x['k'] not in ('return', 'block')]
+                        if len(rets) == 1 and not others:
+                            txt += ' ' + show(rets[0]['e'])
             ok = 'substr(1' in txt and 'size() - 2' in txt and '.text' in txt
             why = 'name computed as %s' % txt
     I3.check(ok, 'scan: missing include target', 'FILE_NOT_FOUND with file_request = text.substr(1, size-2) when !files.contains(name)', why, W % scan['loc'][1])
@@ -612,6 +637,52 @@ def c15(rep, tier):
                     cnd = gparse.expanded(i2['c'])
                     kinds = set(x['name'] for x in walk_expr(cnd) if x.get('k') == 'ref' and x.get('dk') == 'enumerator')
                     okp = True
+    if not okp or kinds != {'FILE_NOT_FOUND', 'MAIN_FILE_NOT_FOUND'}:
+        # general form: some function of parse.cpp pushes <error>.file_request under a test of the error kind, possibly through a
+        # predicate; evaluated for every error kind
+        from .enumeval import EnumEval, Unsupported as EUnsupported
+        ekinds = [n for n, _ in sfacts.enum('Theo::ParseError::Type')['enumerators']]
+
+        def is_subj(x, env):
+            return x is not None and x.get('k') == 'member' and x.get('name') == 't' and 'ParseError' in (strip_casts(x['base']).get('cty') or '')
+        for f in sfacts.functions:
+            if f.get('body') is None or not f['file'].endswith('parse.cpp') or f['tmpl'] == 'pattern':
+                continue
+            pushes_ = [e for e in walk_all_exprs(f['body']) if is_call(e, '::push_back') and 'file_request' in show(e)]
+            if not pushes_:
+                continue
+            try:
+                ee = EnumEval(sfacts, is_subj, lambda c: is_call(c, '::push_back') and 'file_request' in show(c), carrier='ParseError')
+                # the collecting loop body is evaluated per error kind
+                body = f['body']
+                for st in walk_stmts(f['body']):
+                    if st['k'] == 'rangefor' and any(x is pushes_[0] for x in walk_all_exprs(st['body'])):
+                        body = st['body']
+                tb = ee.table({'body': body}, ekinds)
+                kinds = set(K for K, effs in tb.items() if effs)
+                okp = True
+            except EUnsupported:
+                # "whoever carries a request": then the kinds are those the scanner constructs with a file_request
+                guards_txt = ' '.join(show(st['c']) for st in walk_stmts(f['body']) if st['k'] == 'if' and any(x is pushes_[0] for x in walk_all_exprs(st['t'])))
+                if 'file_request' in guards_txt and ('empty' in guards_txt or 'size' in guards_txt):
+                    ks = set()
+                    for f2 in sfacts.functions:
+                        if f2.get('body') is None or not f2['file'].endswith('scan.cpp'):
+                            continue
+                        for x in walk_all_exprs(f2['body']):
+                            if x.get('k') == 'init' and 'ParseError' in (x.get('rec') or ''):
+                                fl = dict(x['fields'])
+                                fr = fl.get('file_request')
+                                tt = fl.get('t') or fl.get('type')
+                                fr0 = strip_conv(strip_copies(strip_casts(fr))) if fr is not None else None
+                                while fr0 is not None and fr0.get('k') == 'construct' and fr0.get('args'):
+                                    fr0 = strip_casts(fr0['args'][0])
+                                empty_req = fr0 is not None and fr0.get('k') == 'str' and fr0.get('v') == ''
+                                if fr is not None and tt is not None and not empty_req:
+                                    ks |= set(y['name'] for y in walk_expr(tt) if y.get('k') == 'ref' and y.get('dk') == 'enumerator')
+                    if ks:
+                        kinds = ks
+                        okp = True
     I5.check(okp and kinds == {'FILE_NOT_FOUND', 'MAIN_FILE_NOT_FOUND'}, 'parse: requests collected', 'file_request of FILE_NOT_FOUND and MAIN_FILE_NOT_FOUND errors',
              'requests are collected for error kinds %s' % sorted(kinds), 'Compiler/src/parse.cpp:%d' % parse['loc'][1])
     rets = [s for s in walk_stmts(parse['body']) if s['k'] == 'return']
